@@ -416,11 +416,13 @@ def tsan_pass(ctx, cases, run_model, run_spec):
     for i in range(0, len(cases), 50):
         d.feed(cases[i:i + 50])
     sites = collections.Counter()
+    srcs = set(os.listdir(os.path.join(vlib.REPO, 'src')))
     for rep in ''.join(errs).split('=================='):
         if 'ThreadSanitizer: data race' not in rep:
             continue
-        fr = re.findall(r'#0 (\S+) (\S+?):(\d+)', rep)      # innermost frame of each of the two accesses
-        lib = [(f, os.path.basename(fl), ln) for f, fl, ln in fr[:2] if '/src/' in fl]
+        # innermost frame of each of the two conflicting accesses (a lost stack has none)
+        fr = re.findall(r'(?:[Rr]ead|[Ww]rite) of size \d+ at \S+ by [^\n]*:\n\s+#0 (\S+) (\S+?):(\d+)', rep)
+        lib = [(f, os.path.basename(fl), ln) for f, fl, ln in fr[:2] if os.path.basename(fl) in srcs]
         if lib:
             sites['%s %s:%s' % lib[0]] += 1
         else:
